@@ -78,6 +78,30 @@ def L(t, d=None):
     return ('lit', t, d)
 
 
+def nested_levels(rng):
+    """|| nested inside a branch of another ||, inside |, behind a definition: the same literal reached
+    along two nesting paths that give it the SAME level (the numbering of a nested || starts afresh), so the
+    two occurrences are one expectation and the automaton must merge them."""
+    a = rng.choice(mspec.TOP_LITS)
+    others = [t for t in mspec.TOP_LITS if t != a]
+    x, y, z, b, c = [L(t) for t in rng.sample(others, 5)]
+    A = L(a)
+    shapes = [
+        ('fb', [x, ('seq', [A, b]), ('fb', [y, ('seq', [A, c])])]),
+        ('fb', [('seq', [A, b]), ('fb', [('seq', [A, c]), z])]),
+        ('alt', [('fb', [x, ('seq', [A, b])]), ('fb', [y, ('seq', [A, c])])]),
+        ('fb', [x, ('alt', [('seq', [A, b]), ('fb', [y, ('seq', [A, c])])])]),
+        ('seq', [('opt', z), ('fb', [x, ('seq', [A, b]), ('fb', [y, ('seq', [A, c])])])]),
+    ]
+    e = rng.choice(shapes)
+    stmts = [('call', 'cmd', e)]
+    if rng.random() < 0.4:
+        # the nested || behind a definition
+        stmts = [('call', 'cmd', ('fb', [x, ('seq', [A, b]), ('nt', 'N')])), ('def', 'N', None, ('fb', [y, ('seq', [A, c])]))]
+    # not normalised: gen.normalize would flatten the nested || (the shapes above are otherwise in normal form)
+    return stmts, mspec.Probes()
+
+
 def biased(rng):
     """Grammars aimed at the property's corner: the same literal at the head of several || branches
     or call variants, within-word expressions repeated with permuted alternatives or reached
@@ -262,6 +286,9 @@ def run(ctx, res):
                                    ('seq', [('sub', [L('a'), ('alt', [L('b'), L('c')])]), L('y')])]))], mspec.Probes(), CLASS_LS),
     ]
     cases = [(w[0], w[1], w[2]) for w in witnesses]
+    for _ in range(12 if quick else 200):
+        st, pr = nested_levels(rng)
+        cases.append((st, pr, None))
     for _ in range(n_dec):
         st, pr = biased(rng)
         cases.append((st, pr, None))
